@@ -208,6 +208,14 @@ for _pid, _x in EXTRA5.items():
     _c = CLAIMS[_pid]
     CLAIMS[_pid] = (_c[0], _c[1], _c[2] + _x, _c[3], _c[4])
 
+EXTRA6 = {
+    'C16': ' A manager with fewer cached processors than zones in play: a zone used twice, evicted by two other zones and used again, and its restored counterpart, answer like a zone with a processor of its own (every zone of both registries).',
+}
+for _pid, _x in EXTRA6.items():
+    _c = CLAIMS[_pid]
+    CLAIMS[_pid] = (_c[0], _c[1], _c[2] + _x, _c[3], _c[4])
+
+
 def main():
     props = [json.loads(l) for l in open(os.path.join(VERIF, 'properties.jsonl'))]
     checks = []
